@@ -5,6 +5,24 @@ The case format, the splitting oracle and the generators live in ``gen/c11_listf
 one list field (whitespace- or comma-separated), plus a history of edits made through
 ``paragraph.as_interpreted_dict_view(LIST_*_INTERPRETATION)[name]`` used as a context manager.
 
+Besides the edits the statement names (append / remove / replace / ValueReference), a history may
+contain the other public steps of the list view.  None of them changes the reference list, they
+only change what surrounds the values when the next edit happens and how / whether the field is
+written back:
+  value_formatter(f[, force_reformat])  f = the library's formatter or one of two written here after
+                      the rules of the format_field() docstring; force_reformat=True counts like
+                      reformat_when_finished() (the field may be rewritten), otherwise the call is
+                      no change ("By default, fields are only reformatted if they are changed")
+  append_comment(text), append_newline(), append_separator() [comma lists]
+                      no docstring; by the statement's own splitting rule a comment line, a line
+                      break or a separator adds no value.  Nothing is demanded about them except that
+                      the list stays what it was; a view they were called on is never held to
+                      "closed without change => byte-identical", and a view that may end on a comment
+                      line may refuse to close (ValueError, document unchanged)
+  the same view object entered again ("reenter"): list, mode and references live on
+  a second view of the same field that is only read (list() / references / not at all) while the
+  first one edits: closing it - inside the session, in a later one, or last - must not change a byte
+
 Signatures (root causes, not inputs):
   read-differs                     a fresh view does not yield split(field text)
   first-line-hash-read-as-comment  ... because the text right after "Name:" starts with '#'
@@ -17,6 +35,7 @@ Signatures (root causes, not inputs):
   reference-reads-wrong-value      ValueReference.value != the value it refers to
   absent-value-accepted            remove/replace of a value not in the list did not raise ValueError
   emptied-list-accepted / failed-close-changed-document
+  read-only-view-wrote-on-close    closing a second view that was only read changed the document
   other-fields-changed             bytes before the field (incl. its comment) or after it differ
   syntax-invalid-after-edit        new field text is not a well-formed field / error tokens /
                                    different paragraph or field-name structure
@@ -33,6 +52,7 @@ from debian._deb822_repro import parse_deb822_file
 from debian._deb822_repro.parsing import (
     LIST_SPACE_SEPARATED_INTERPRETATION, LIST_COMMA_SEPARATED_INTERPRETATION,
 )
+from debian._deb822_repro.formatter import one_value_per_line_trailing_separator
 
 ID = "C11"
 LEVEL = "exploration"
@@ -40,11 +60,19 @@ RULE = ("case = one list field (whitespace- or comma-separated; 1..4 lines, thor
         "empty / blanks only / with values; space or tab continuation markers; comment lines between "
         "continuation lines; blanks around separators; leading, trailing, doubled and lonely commas; "
         "comma items spanning lines, with comment lines inside) between other fields, x a history of "
-        "0..5 (thorough ..8) append / remove / replace / ValueReference set+remove (fresh or captured "
-        "at open) / absent-value / drain / reformat-mode / close-and-reopen steps, with or without "
-        "reading the view after every step. Enumerated: every layout of <=2 (thorough <=3) "
-        "continuation lines over a 5..9-shape line alphabet x every single edit x {preserve, "
-        "reformat} + every unobserved append;remove(i) / append;replace(i) (thorough: + every "
+        "0..5 (thorough ..8) chunks of append / remove / replace / ValueReference set+remove (fresh or "
+        "captured when the view was first entered) / absent-value / drain / reformat-mode / "
+        "value_formatter(library formatter | single-line | leading-separator formatter; force_reformat "
+        "omitted, False, True) / append_comment / append_newline / append_separator / read (list or "
+        "references) / close-and-reopen / close-and-re-enter-the-same-view / open, read and close a "
+        "second view of the field, with or without reading the view after every step (chunks: one "
+        "step, comment+append, newline+append, re-enter+captured-reference assignment). Enumerated: "
+        "every layout of <=2 (thorough <=3) continuation lines over a 5..9-shape line alphabet x "
+        "{every single edit x {preserve, reformat}, every unobserved append;remove(i) / "
+        "append;replace(i), append after comment / newline / separator, each formatter before / after "
+        "/ without an edit, every remove(i) and reference assignment followed by value_formatter, "
+        "every captured reference used after re-entering the view, a second view (3 ways of reading) "
+        "open during an append and closed inside / after the session} (thorough: + every "
         "ordered pair of removals). Non-trivial = the field has >=2 "
         "lines or a comment line, and >=1 edit was applied successfully; distinct = canonical JSON")
 ASSUMPTIONS = [
@@ -53,7 +81,20 @@ ASSUMPTIONS = [
     "fields without any value are outside the domain (the value tokenizer asserts non-blank input)",
     "characters: space, tab and printable non-space characters only (no CR/VT/FF/NBSP/U+2028...)",
     "a new value starting with '#' may be rejected with ValueError (either outcome accepted)",
-    "ValueReferences are only used while the value they refer to is still in the list",
+    "ValueReferences are only used while the value they refer to is still in the list and the view "
+    "they came from is alive (it is kept across close + re-enter)",
+    "the formatters written here (fmt_single_line, fmt_leading_separator) follow every rule of the "
+    "format_field() docstring; no layout is demanded from any formatter, only the statement's "
+    "post-conditions (edited list, other fields, validity)",
+    "append_comment / append_newline / append_separator have no docstring: only 'adds no value' is "
+    "assumed. Comment texts are one line and '' or contain a non-blank character (a blanks-only text "
+    "yields an unterminated comment token - reported, outside the statement); append_newline may "
+    "raise ValueError (accepted, no effect); append_separator is used on comma lists that still have "
+    "a value (after a line break a blank separator makes a blank line; a lonely comma counts as "
+    "content of an emptied list); closing a view that may end on a comment line may raise ValueError",
+    "two views alive at once: only one of them is ever edited, the other one is only read",
+    "sort() / sort_elements() are not used: reordering is not one of the statement's edits, and "
+    "sort() itself fails on a legal layout (separator alone between a comment line and a value)",
     "the original document is parsed with parse_deb822_file (C01/C02 cover that step)",
     "LIST_UPLOADERS_INTERPRETATION is not covered: its splitting rule is stated in no docstring",
     "Hypothesis 6.168 generators; sha1 for distinctness",
@@ -62,14 +103,63 @@ EXHAUSTIVE = {
     "quick": "all ws/comma layouts = first-line shape (7/9) x 0..2 further lines over 5/7 line shapes "
              "(with >=1 value, not ending on a comment) x {no edit, every single append/remove/"
              "ref-remove/replace/ref-set x {preserve, reformat}, every unobserved append;remove(i) "
-             "and append;replace(i)}",
+             "and append;replace(i), 6 append-after-comment/newline/separator histories, 3 formatters "
+             "x {after append, forced alone, before append}, every remove(i) / ref-set(i) followed by "
+             "value_formatter, every captured reference i assigned / removed after re-entering the "
+             "same view, a second view read in 3 ways around an append (closed last / inside / in the "
+             "next session), read-only sessions through references}",
     "thorough": "as quick with 0..3 further lines, plus every ordered pair remove(i); "
                 "captured-reference remove(j)",
 }
 BUDGET = {"quick": 240, "thorough": 2400}
 
 INTERP = {"ws": LIST_SPACE_SEPARATED_INTERPRETATION, "comma": LIST_COMMA_SEPARATED_INTERPRETATION}
-MUTATING = ("append", "remove", "replace", "ref_set", "ref_remove", "drain", "reformat")
+
+
+# Formatters for view.value_formatter(): the one the library ships, and two written here that follow
+# the rules of the format_field() docstring (output ends on a newline; a continuation marker before
+# every value that follows a newline; comment tokens only directly after a newline; values as-is and
+# in order; comments may be dropped; separators are placed by the formatter).
+
+
+def fmt_single_line(name, sep_token, tokens):
+    """All values on the first line; comments are dropped (explicitly allowed)."""
+    first = True
+    for t in tokens:
+        if not t.is_value:
+            continue
+        if first:
+            yield " "
+        elif sep_token.is_whitespace:
+            yield " "
+        else:
+            yield sep_token
+            yield " "
+        yield t
+        first = False
+    yield "\n"
+
+
+def fmt_leading_separator(name, sep_token, tokens):
+    """Empty first line, one value per tab-marked line, separators lead, comments are kept."""
+    yield "\n"
+    first = True
+    for t in tokens:
+        if t.is_comment:
+            yield t
+        elif t.is_value:
+            yield "\t"
+            if not first and not sep_token.is_whitespace:
+                yield sep_token
+                yield " "
+            yield t
+            yield "\n"
+            first = False
+
+
+FORMATTERS = {"lib": one_value_per_line_trailing_separator, "line": fmt_single_line,
+              "lead": fmt_leading_separator}
+assert tuple(FORMATTERS) == G.FORMATTER_NAMES
 
 
 # ------------------------------------------------------------------------------------------
@@ -182,23 +272,78 @@ def comment_adjacent(kind, value_text, idx):
 
 
 # ------------------------------------------------------------------------------------------
-# one open ... close session
+# a second, read-only view of the same field
+
+
+class Probe(object):
+    """At most one at a time; lives in check() so that it survives reopen / reenter."""
+
+    def __init__(self, f, para, kind, name, labels):
+        self.f, self.para, self.kind, self.name, self.labels = f, para, kind, name, labels
+        self.view = None
+
+    def open(self, how, doc_values, value_text):
+        if self.view is not None:
+            return
+        view = self.para.as_interpreted_dict_view(INTERP[self.kind])[self.name]
+        view.__enter__()
+        self.view = view
+        got = None
+        if how == "iter":
+            got = list(view)
+        elif how == "refs":
+            got = [r.value for r in view.iter_value_references()]
+        if got is not None and got != doc_values:
+            raise Violation(read_sig(value_text, got), "a second view (read with %s) of %s yields %s, "
+                            "splitting gives %s" % (how, short(value_text), short(got), short(doc_values)))
+        self.labels.add("second-view:read-" + how)
+
+    def close(self, when):
+        if self.view is None:
+            return
+        before = self.f.dump()
+        view, self.view = self.view, None
+        view.__exit__(None, None, None)
+        after = self.f.dump()
+        self.labels.add("second-view:closed-" + when)
+        if after != before:
+            raise Violation("read-only-view-wrote-on-close", "closing a second view that was only read "
+                            "(%s) turned %s into %s" % (when, short(before), short(after)))
+
+
+# ------------------------------------------------------------------------------------------
+# one view object: one or several ``with`` sessions
 
 
 class Session(object):
-    def __init__(self, case, para, doc, value_text, values, labels):
+    def __init__(self, case, para, value_text, values, labels, probe, capture):
         self.kind = case["kind"]
         self.name = case["name"]
         self.observe = case["observe"]
         self.para = para
-        self.doc = doc
-        self.value_text = value_text
+        self.labels = labels
+        self.probe = probe
+        self.capture = capture  # take one reference per value when the view is first entered
         self.model = [[i, v] for i, v in enumerate(values)]     # [id, value]
         self.next_id = len(values)
-        self.labels = labels
-        self.edits = 0          # successful mutating steps
         self.view = None
+        self.viewobj = None
         self.captured = []
+        self.entered = 0
+        self.reformat = False
+        # the view may end on a comment line (append_comment without a value after it); only
+        # append() resets this, so it over-approximates: closing may then fail with ValueError
+        self.tail_comment = False
+        # steps whose effect on "is the field written back" no docstring states were made on this
+        # view object: closing it without an edit need not leave the field byte-identical
+        self.touched = False
+        self.begin(value_text, values)
+
+    def begin(self, value_text, doc_values):
+        """A new ``with`` session starts on the document text ``value_text``."""
+        self.value_text = value_text
+        self.doc_values = list(doc_values)
+        self.edits = 0          # successful mutating steps of this session
 
     def vals(self):
         return [v for _, v in self.model]
@@ -229,8 +374,8 @@ class Session(object):
             self.labels.add(what + ":last-value")
         else:
             self.labels.add(what + ":middle-value")
-        if self.edits == 0 and self.model[pos][0] == pos and \
-                comment_adjacent(self.kind, self.value_text, pos):
+        if self.edits == 0 and self.entered == 1 and not self.touched and self.model[pos][0] == pos \
+                and comment_adjacent(self.kind, self.value_text, pos):
             self.labels.add("comment-adjacent-to-removed")
 
     def set_value(self, setter, v):
@@ -248,21 +393,35 @@ class Session(object):
             self.labels.add("hash-led-new-value-accepted")
         return True
 
+    def all_refs(self):
+        refs = list(self.view.iter_value_references())
+        if len(refs) != len(self.model):
+            raise Violation("reference-count-differs", "%d references for the list %s"
+                            % (len(refs), short(self.vals())))
+        return refs
+
     def pick_ref(self, i, fresh):
-        """(position in the model, ValueReference) or None."""
+        """(position in the model, ValueReference)."""
         live_ids = [m[0] for m in self.model]
         if not fresh:
             live = [(vid, r) for vid, r in self.captured if vid in live_ids]
             if live:
                 vid, ref = live[i % len(live)]
                 self.labels.add("captured-reference-used")
+                if self.entered > 1:
+                    self.labels.add("reference-from-earlier-session-used")
                 return live_ids.index(vid), ref
-        refs = list(self.view.iter_value_references())
-        if len(refs) != len(self.model):
-            raise Violation("reference-count-differs", "%d references for the list %s"
-                            % (len(refs), short(self.vals())))
+        refs = self.all_refs()
         pos = i % len(refs)
         return pos, refs[pos]
+
+    def edited(self, label):
+        self.edits += 1
+        self.labels.add(label)
+        if self.entered > 1:
+            self.labels.add("edit-in-re-entered-view")
+        if self.probe.view is not None:
+            self.labels.add("edit-while-second-view-alive")
 
     def step(self, op):
         k, view, model = op[0], self.view, self.model
@@ -274,8 +433,10 @@ class Session(object):
             if self.set_value(lambda: view.append(v), v):
                 model.append([self.next_id, v])
                 self.next_id += 1
-                self.edits += 1
-                self.labels.add("op:append" + ("-to-emptied-list" if len(model) == 1 else ""))
+                if self.tail_comment:
+                    self.labels.add("append-after-comment")
+                self.tail_comment = False
+                self.edited("op:append" + ("-to-emptied-list" if len(model) == 1 else ""))
         elif k in ("remove", "replace"):
             if not model:
                 return
@@ -288,8 +449,7 @@ class Session(object):
                 except ValueError as e:
                     self.not_found("remove", v, e)
                 del model[pos]
-                self.edits += 1
-                self.labels.add("op:remove")
+                self.edited("op:remove")
             else:
                 w = op[2]
                 if not G.valid_new_value(self.kind, w):
@@ -301,8 +461,7 @@ class Session(object):
                     self.not_found("replace", v, e)
                 if ok:
                     model[pos][1] = w
-                    self.edits += 1
-                    self.labels.add("op:replace")
+                    self.edited("op:replace")
         elif k in ("ref_set", "ref_remove"):
             if not model:
                 return
@@ -314,8 +473,7 @@ class Session(object):
                 self.position_labels(pos, "removed")
                 ref.remove()
                 del model[pos]
-                self.edits += 1
-                self.labels.add("op:ref-remove")
+                self.edited("op:ref-remove")
             else:
                 w = op[2]
                 if not G.valid_new_value(self.kind, w):
@@ -326,8 +484,7 @@ class Session(object):
                     ref.value = w
                 if self.set_value(assign, w):
                     model[pos][1] = w
-                    self.edits += 1
-                    self.labels.add("op:ref-set")
+                    self.edited("op:ref-set")
                     if self.observe and ref.value != w:
                         raise Violation("reference-reads-wrong-value",
                                         "after ref.value = %r the reference reads %r" % (w, ref.value))
@@ -365,20 +522,73 @@ class Session(object):
         elif k == "noreformat":
             view.no_reformatting_when_finished()
             self.reformat = False
+        elif k == "formatter":
+            # docstring: "force_reformat: If True, always reformat the field even if there are no
+            # (other) changes performed.  By default, fields are only reformatted if they are changed."
+            fmt, force = FORMATTERS[op[1]], op[2]
+            when = "after-edit" if self.edits else "before-any-edit"
+            if force is None:
+                view.value_formatter(fmt)
+            elif op[1] == "line":
+                view.value_formatter(fmt, force)
+            else:
+                view.value_formatter(fmt, force_reformat=force)
+            if force:
+                self.edits += 1         # like reformat_when_finished(): the field may be rewritten
+            self.reformat = True
+            self.labels.add("op:formatter-" + op[1])
+            self.labels.add("formatter:%s,%s" % ("forced" if force else "not-forced", when))
+        elif k == "append_comment":
+            text = op[1]
+            if text != "" and text.strip(" \t") == "":
+                self.labels.add("blank-only-comment-skipped")       # see ASSUMPTIONS
+                return
+            view.append_comment(text)
+            self.tail_comment = True
+            self.touched = True
+            self.labels.add("op:append-comment")
+        elif k == "append_newline":
+            try:
+                view.append_newline()
+            except ValueError:
+                # "Cannot add a newline after a token that ends on a newline": no docstring, the
+                # message states the precondition; whether it holds is not modelled
+                self.labels.add("op:append-newline-rejected")
+                return
+            self.touched = True
+            self.labels.add("op:append-newline")
+        elif k == "append_separator":
+            if self.kind != "comma" or not model:
+                return          # ws: a blank after a line break would be a blank line; emptied list:
+                                # a lonely comma is "content", the field would be written without value
+            view.append_separator(space_after_separator=op[1])
+            self.touched = True
+            self.labels.add("op:append-separator")
+        elif k == "read":
+            if op[1] == "iter":
+                self.compare_view("read")
+            else:
+                got = [r.value for r in self.all_refs()]
+                if got != self.vals():
+                    raise Violation("reference-reads-wrong-value", "the references read %s, list is %s"
+                                    % (short(got), short(self.vals())))
+            self.labels.add("op:read-" + op[1])
+        elif k == "probe_open":
+            self.probe.open(op[1], self.doc_values, self.value_text)
+        elif k == "probe_close":
+            self.probe.close("inside-the-session")
 
     def run(self, ops):
         """Apply ``ops`` inside one ``with``; returns True when the close raised ValueError."""
-        self.reformat = False
         closing = False
+        if self.viewobj is None:
+            self.viewobj = self.open_view()
+        self.entered += 1
         try:
-            with self.open_view() as view:
+            with self.viewobj as view:
                 self.view = view
-                if any(op[0] in ("ref_set", "ref_remove") and not op[-1] for op in ops):
-                    refs = list(view.iter_value_references())
-                    if len(refs) != len(self.model):
-                        raise Violation("reference-count-differs", "%d references for the list %s"
-                                        % (len(refs), short(self.vals())))
-                    self.captured = [(m[0], r) for m, r in zip(self.model, refs)]
+                if self.capture and self.entered == 1:
+                    self.captured = [(m[0], r) for m, r in zip(self.model, self.all_refs())]
                 if self.observe:
                     self.compare_view("opening")
                 for op in ops:
@@ -387,15 +597,18 @@ class Session(object):
                         self.compare_view(op[0])
                 closing = True
         except ValueError:
-            if not closing or self.model:
+            if not closing or (self.model and not self.tail_comment):
                 raise          # outside the contract: classified by the engine (EXC:ValueError@frame)
             return True
         finally:
             self.view = None
-            self.captured = []
         if self.reformat and self.edits:
             self.labels.add("closed-in-reformat-mode")
         return False
+
+
+def uses_captured(ops):
+    return any(op[0] in ("ref_set", "ref_remove") and not op[-1] for op in ops)
 
 
 def check(case):
@@ -417,38 +630,52 @@ def check(case):
     if f.dump() != doc:
         return (False, ("original-does-not-round-trip",))    # C01 territory
 
-    sessions = [[]]
+    segments = [["open", []]]
     for op in case["history"]:
-        if op[0] == "reopen":
-            sessions.append([])
+        if op[0] in ("reopen", "reenter"):
+            segments.append([op[0], []])
         else:
-            sessions[-1].append(op)
-    if len(sessions) > 1:
+            segments[-1][1].append(op)
+    if any(how == "reopen" for how, _ in segments):
         labels.add("reopened")
 
+    probe = Probe(f, para, kind, name, labels)
     total_edits = 0
-    for ops in sessions:
-        # (1) a fresh view reads exactly the split values
-        got = list(para.as_interpreted_dict_view(INTERP[kind])[name])
-        if got != values:
-            raise Violation(read_sig(value_text, got), "view of %s yields %s, splitting gives %s"
-                            % (short(name + ":" + value_text), short(got), short(values)))
-        s = Session(case, para, doc, value_text, values, labels)
+    s = None
+    for no, (how, ops) in enumerate(segments):
+        if s is None or how != "reenter":
+            # (1) a fresh view reads exactly the split values
+            got = list(para.as_interpreted_dict_view(INTERP[kind])[name])
+            if got != values:
+                raise Violation(read_sig(value_text, got), "view of %s yields %s, splitting gives %s"
+                                % (short(name + ":" + value_text), short(got), short(values)))
+            same_view = list(ops)
+            for how2, ops2 in segments[no + 1:]:
+                if how2 != "reenter":
+                    break
+                same_view += ops2
+            s = Session(case, para, value_text, values, labels, probe, uses_captured(same_view))
+        else:
+            s.begin(value_text, values)
+            labels.add("same-view-re-entered")
         close_failed = s.run(ops)
         dump = f.dump()
-        if not s.model:
-            labels.add("list-emptied")
-            if not close_failed:
-                raise Violation("emptied-list-accepted", "closing a view whose last value was removed "
-                                "did not raise ValueError; dump is %s" % short(dump))
+        if close_failed:
+            # the list was emptied, or the view may end on a comment line
+            labels.add("list-emptied" if not s.model else "close-rejected-after-append-comment")
             if dump != doc:
                 raise Violation("failed-close-changed-document", "%s became %s" % (short(doc), short(dump)))
-            continue                      # document unchanged: the next session starts from it
-        if s.edits == 0:
+            s = None                      # document unchanged: the next session starts from it
+            continue
+        if not s.model:
+            labels.add("list-emptied")
+            raise Violation("emptied-list-accepted", "closing a view whose last value was removed "
+                            "did not raise ValueError; dump is %s" % short(dump))
+        if s.edits == 0 and not s.touched:
             labels.add("closed-without-change")
             if dump != doc:
                 raise Violation("noop-changes-document", "open/close without a successful edit turned "
-                                "%s into %s" % (short(doc), short(dump)))
+                                "%s into %s (steps: %s)" % (short(doc), short(dump), short(ops)))
             continue
         total_edits += s.edits
         # (3) locality, validity, read-back
@@ -479,6 +706,9 @@ def check(case):
         if not suffix and not doc.endswith("\n"):
             labels.add("edited-unterminated-last-field")
         doc, ftext, value_text, values = dump, new_ftext, new_value_text, want
+
+    # a second view that is still alive is closed last: nothing may happen to the document
+    probe.close("after-the-edited-view")
 
     multi = bool(case["rest"])
     return (multi and total_edits > 0, sorted(labels))
